@@ -263,3 +263,70 @@ def acao_expected(cfg, env):
     if cfg == [] or 'HTTP_ORIGIN' not in env:
         return False
     return origin_allowed(cfg, env, env['HTTP_ORIGIN'])
+
+
+# --- sessions, events, queues (C03-C07, C16) ----------------------------------------------------
+# Ghost-log accessors (mk_event, ev_handler, ev_nargs, ev_arg0, ev_arg1, mk_task, dict_del,
+# dict_set, handler_accepts) are verifier primitives; native stand-ins for replay:
+
+def mk_event(h, n, a0, a1):
+    return (h, n, a0, a1)
+
+
+def ev_handler(e):
+    return e[0]
+
+
+def ev_nargs(e):
+    return e[1]
+
+
+def ev_arg0(e):
+    return e[2]
+
+
+def ev_arg1(e):
+    return e[3]
+
+
+def ping_expired(s, now):
+    """The heartbeat deadline of socket s has passed at time `now` (strictly)."""
+    if not s.last_ping:
+        return False
+    return now - s.last_ping > s.server.ping_timeout
+
+
+def last_event_is(events, old_events, h, n, a0, a1):
+    return len(events) == len(old_events) + 1 and \
+        events[0:len(old_events)] == old_events and \
+        events[len(old_events)] == mk_event(h, n, a0, a1)
+
+
+def one_disconnect(events, old_events, h, sid, r):
+    """Exactly one invocation of disconnect handler h for sid, with reason r (or, for a legacy
+    one-argument handler, without); none only if h accepts neither call shape."""
+    n = len(events) - len(old_events)
+    if events[0:len(old_events)] != old_events:
+        return False
+    if handler_accepts(h, 2):
+        return n == 1 and events[len(old_events)] == mk_event(h, 2, sid, r)
+    if handler_accepts(h, 1):
+        return n == 1 and events[len(old_events)] == mk_event(h, 1, sid, None)
+    return n == 0
+
+
+def handler_accepts(h, n):
+    import inspect
+    try:
+        inspect.signature(h).bind(*([None] * n))
+    except TypeError:
+        return False
+    return True
+
+
+def appended_at_most_close(acc, old_acc, not_this):
+    """The accepted log grew by nothing, or by exactly one fresh CLOSE packet."""
+    if acc == old_acc:
+        return True
+    return len(acc) == len(old_acc) + 1 and acc[0:len(old_acc)] == old_acc and \
+        acc[len(old_acc)].packet_type == 1 and acc[len(old_acc)] is not not_this
